@@ -15,7 +15,7 @@ MANIFEST = {
             'pair of the default (search-the-decode-table) encoders are numerical and not decided; the fast/less-slow encode tables are '
             'checked exhaustively under C17. ' 
             '(D6, R-SINGLEBYTE, exhaustive data-vs-data) for each of the 28 single-byte Encoding statics the run parameters handed to SingleByteEncoder (code units mapped without a table look-up) mirror the const-evaluated decode table entry by entry, and the encoder\'s search order finds, for every code unit of the table, the first pointer holding it (the Standard\'s index-pointer rule). ' 
-            '(R-UTF8STORE) the hand-inlined UTF-8 writers (convert_utf16_to_utf8_partial_inner/_tail behind every UTF-16 -> UTF-8 conversion and the UTF-8 encoder, convert_latin1_to_utf8_partial, convert_unaligned_utf16_to_utf8 of the UTF-16 decoder, and the three multi-byte writers of Utf8Destination) store, for every scalar of the domain the path conditions leave (80-7FF, 800-FFFF, the supplementary planes through the shape-checked surrogate-pair formula), exactly the bytes of its UTF-8 encoding: each stored byte is evaluated as an exact piecewise function of the input and compared piece by piece over the whole domain; constant runs are one complete sequence (EF BF BD). (R-UTF8ASM) every place that assembles a value from the bytes of a UTF-8 sequence (OR/ADD of shifted byte terms) has the shifts 6(n-1)..0, a lead term equal to byte-C0/E0/F0 on the n-byte leads and continuation terms equal to byte-80 on 80-BF, compared as exact functions over the byte domains, loaded from consecutive positions where the loads resolve (here: handles::Utf8Source, 15 sites).',
+            '(R-UTF8STORE) the hand-inlined UTF-8 writers (convert_utf16_to_utf8_partial_inner/_tail behind every UTF-16 -> UTF-8 conversion and the UTF-8 encoder, convert_latin1_to_utf8_partial, convert_unaligned_utf16_to_utf8 of the UTF-16 decoder, and the three multi-byte writers of Utf8Destination) store, for every scalar of the domain the path conditions leave (80-7FF, 800-FFFF, the supplementary planes through the shape-checked surrogate-pair formula), exactly the bytes of its UTF-8 encoding: each stored byte is evaluated as an exact piecewise function of the input and compared piece by piece over the whole domain; constant runs are one complete sequence (EF BF BD). (R-UTF8ASM) every place that assembles a value from the bytes of a UTF-8 sequence (OR/ADD of shifted byte terms) has the shifts 6(n-1)..0, a lead term equal to byte-C0/E0/F0 on the n-byte leads and continuation terms equal to byte-80 on 80-BF, compared as exact functions over the byte domains, loaded from consecutive positions where the loads resolve (here: handles::Utf8Source, 15 sites). (R-SINGLEBYTE.ascii-copy) the hand-written single-byte loops copy a source unit to the destination as it is only on paths whose conditions confine that unit to 00-7F. (D5.hanzi-block) the gb18030/GBK encoder routes exactly U+4E00-U+9FA5 to the hanzi encoder. (D6) five small tables that are searched whole behind a range guard (the gb18030-2022 PUA overrides, GB2312_SYMBOLS_AFTER_GREEK, the KS X 1001 lower-case, upper-case and box rows) keep every entry inside the exact set the guard admits (frozen instances).',
     'note': 'Trusted: rustc MIR, mirx, rule library, the Standard\'s encoder steps as transcribed in rules/r_state.py and rules/r_encclass.py.',
     'technique': 'abstract interpretation (exact interval sets, opaque table predicates) over MIR + path-summary pairing rules + value provenance',
 }
